@@ -299,7 +299,11 @@ def _byzantine(g, node, label, res, tr, InvalidPayloadError):
                       # not JSON (RFC 8259): constants JSON does not have; JSON text exchanged between systems is UTF-8 without a byte order mark
                       b"{\"a\":NaN}", b"{\"a\":Infinity}", b"{\"exp\":-Infinity}", b"{\"a\":[1,{\"b\":NaN}]}",
                       '{"a":"b"}'.encode("utf-16"), '{"a":"b"}'.encode("utf-16-le"), '{"a":"b"}'.encode("utf-32"), b"\xef\xbb\xbf{\"a\":1}",
-                      b"{\"a\":1e400}", b"{\"n\":-0.0,\"big\":123456789012345678901234567890}"])
+                      b"{\"a\":1e400}", b"{\"n\":-0.0,\"big\":123456789012345678901234567890}",
+                      # JSON knows four white-space characters (space, tab, LF, CR); Python's str.strip() knows many more
+                      b"\t\r\n {\"ws\":1}\n\t ", b"\x0c{\"a\":1}", b"{\"a\":1}\x0b", "\u00a0{\"a\":1}".encode(), "{\"a\":1}\u2028".encode(),
+                      "\u3000{\"a\":1}\u3000".encode(), b"{\"a\":1}\x1c", b"\x1f{\"a\":1}", "{\"a\":1}\u0085".encode(), b"{\"a\":1}\x00",
+                      "{\"a\":\u00a01}".encode(), b"{\x0c\"a\":1}"])
     hdr = {"typ": "JWT", "alg": node.alg}
     if node.transport == "jws":
         tok = rjws.make_compact(rjws.compact_json(hdr), payload, node.alg, node.key)
